@@ -2,6 +2,7 @@ SPECIFICATION Spec
 CONSTANT Bug = "retry_on_error"
 CONSTANT MaxDefects = 2
 CONSTANT MaxValidations = 1
+CONSTANT AllowForever = FALSE
 CONSTANT MaxPending = 1
 INVARIANT ProviderOnce
 CHECK_DEADLOCK FALSE
